@@ -617,6 +617,9 @@ def run(ctx, tier):
     results += reader_writer_tables(ctx)
     results += page_kinds(ctx)
     results += run_length(ctx)
+    # the built-in check (which strict mode runs inside every commit) accounts for the whole run of every page kind, or it rejects well-formed trees
+    import c16
+    results += c16.check_counts_runs(ctx, rule='C05.check-counts-runs')
     results += free_once(ctx)
     results += freelist_is_set(ctx)
     results += parent_links_refreshed(ctx)
